@@ -13,7 +13,7 @@ def tie_group(group):
     gen_file, tie_file, lemmas = misc.GROUPS[group]
     here = os.path.join(C.VERIF, "harness", "py2coq")
     srcs = [os.path.join(C.REPO, "auditok", f) for f in ("core.py", "io.py", "util.py", "workers.py", "signal.py", "cmdline_util.py")]
-    models = [os.path.join(C.COQ, p) for p in ("Base/PyList.v", "Base/PyFloat.v", "Audio/Region.v", "IO/Source.v", "IO/Reader.v", "IO/Layers.v", "IO/Load.v", "Audio/Energy.v", "Audio/Selector.v", "Cli/Guards.v", "Split/Duration.v", "Split/Split.v", "Cli/Format.v", "Conc/Workers.v", "Conc/Savers.v", "Conc/Loops.v")]
+    models = [os.path.join(C.COQ, p) for p in ("Base/PyList.v", "Base/PyFloat.v", "Audio/Region.v", "IO/Source.v", "IO/Reader.v", "IO/Layers.v", "IO/Layers2.v", "IO/Load.v", "Audio/Energy.v", "Audio/Selector.v", "Cli/Guards.v", "Split/Duration.v", "Split/Split.v", "Cli/Format.v", "Conc/Workers.v", "Conc/Savers.v", "Conc/Loops.v")]
     sha = C.sha_files(srcs + models + [os.path.join(here, "misc.py"), os.path.join(here, "pure.py"), os.path.join(here, "loops.py"), os.path.join(here, "selector.py"), os.path.join(here, "kwargs.py"), os.path.join(here, "alias.py"), os.path.join(here, tie_file), os.path.join(here, "TieTac.v")])
     d = os.path.join(C.GEN, "misc_%s_%s" % (group, sha))
     res = {"sha": sha, "obligations": ["%s:%s" % (tie_file[:-2], l) for l in lemmas]}
